@@ -6,6 +6,7 @@ import (
 	"sort"
 
 	"fsverif/eng"
+	"fsverif/props"
 
 	"golang.org/x/tools/go/ssa"
 )
@@ -16,6 +17,8 @@ func main() {
 		panic(err)
 	}
 	if os.Args[1] == "cp" { dbgCP(p); return }
+	p.SetKnown(props.KnownNames())
+	fmt.Println("transparent:", p.TransparentNames())
 	fn := p.Fn(os.Args[1])
 	if fn == nil {
 		for _, f := range p.ModFuncs {
@@ -40,9 +43,9 @@ func main() {
 		fmt.Println("block", b, "states", len(x.Debug[b]))
 		k := 0
 		for h := range x.Debug[b] {
-			fmt.Println("   ", h)
+			if len(h) > 700 { h = h[:700] }; fmt.Println("   ", h)
 			k++
-			if k > 4 {
+			if k > 1 {
 				break
 			}
 		}
